@@ -532,3 +532,4 @@ def run(prog: Program, rep: Report, tier: str):
     absorb(rep, sub, {"R09.7": "R09.7"})
     c11.class_name_not_stripped(prog, rep, "R09.7")
     c11.module_binds_name(prog, rep, "R09.7")
+    c11.stack_walk_from_caller(prog, rep, "R09.7")
